@@ -145,6 +145,7 @@ func cases(tier string, seed int64) []eng.Case {
 		idx := i
 		out = append(out, eng.Case{ID: fmt.Sprintf("bufprim/%d", i), Sig: "C08|bufprim", Desc: map[string]any{"check": "bufprim", "index": i}, Run: func(c *eng.Ctx) { runBufPrim(c, idx, tier) }})
 	}
+	out = append(out, eng.Case{ID: "equalshape", Sig: "C08|equal", Desc: map[string]any{"check": "equalshape"}, Run: runEqualShape})
 	for i := 0; i < nm; i++ {
 		idx := i
 		out = append(out, eng.Case{ID: fmt.Sprintf("bufmodel/%d", i), Sig: "C08|bufmodel", Desc: map[string]any{"check": "bufmodel", "index": i}, Run: func(c *eng.Ctx) { runBufferModel(c, idx) }})
